@@ -340,9 +340,15 @@ theorem readBinary_toBinary (env : Env) (hC : CryptoInv env.C) (hE : EccLaws env
     (f : File) (ext : List Encryptor) (ephs ephs' : List Nat) (out : Bytes) (chk : Bool)
     (hsk : f.key.length = 16) (hne : f.blocks ≠ []) (hopen : ∀ b ∈ f.blocks, Opens ext b)
     (hnd : (f.blocks.map AuthBlock.tag).Nodup) (hok : ∀ c ∈ f.comps, CompOK env.C f.key c)
-    (h : toBinary env f ext ephs = .ok (out, ephs')) :
-    readBinary env ext chk out =
+    (h : toBinary env f ext ephs = .ok (out, ephs')) (ρ : Bytes := []) :
+    readBinary env ext chk out ρ =
       (readBackAll env.C f.key f.comps).map (fun cs => { comps := cs, blocks := f.blocks, key := f.key }) := by
+  have hik : (initKey (some f.key) ρ).1 = f.key := by
+    have : f.key.isEmpty = false := by
+      cases hk : f.key with
+      | nil => rw [hk] at hsk; simp at hsk
+      | cons _ _ => rfl
+    simp [initKey, this]
   simp only [toBinary, Except.bind_eq_ok] at h
   obtain ⟨⟨packed, e1⟩, hpk, body, hbody, hp⟩ := h
   simp only [pure, Except.pure, Except.ok.injEq, Prod.mk.injEq] at hp
@@ -359,6 +365,6 @@ theorem readBinary_toBinary (env : Env) (hC : CryptoInv env.C) (hE : EccLaws env
   simp only [bind, Except.bind, bne_self_eq_false, Bool.false_eq_true, if_false, hub]
   have hpos : Gen.BEC2_FILE_SIG.length + packed.length = (Gen.BEC2_FILE_SIG ++ packed).length := by simp
   rw [hpos, hfb, blocksDict_nodup [] f.blocks (by simpa using hnd)]
-  cases readBackAll env.C f.key f.comps <;> simp [Except.map, pure, Except.pure]
+  cases readBackAll env.C f.key f.comps <;> simp [Except.map, pure, Except.pure, hik]
 
 end Bec2Verif.Bec2
